@@ -107,8 +107,8 @@ def run_case(case):
             if k in ("lookup_addr", "lookup_id", "check"):
                 net.settle(1500)
                 entry["table_after_lookup"] = dict(master.dhcp_dict)
-            if False:
-                pass
+            if k in ("lookup_addr", "lookup_id", "send", "write", "check"):
+                pass  # done above; the entry is recorded below
             elif k == "release":
                 if len(op) > 2:
                     # first a (possibly long) message to another node, then the release: whatever the send left in the
@@ -146,6 +146,24 @@ def run_case(case):
                 entry["box"] = {"done": b1["done"] and b2["done"], "result": None}
                 entry["table_after_lookup"] = dict(master.dhcp_dict)
                 info["script"].append(entry)
+                continue
+            elif k == "msend":
+                # the master sends n user messages that need no NETWORK_ACK (type 1) to node i: traffic that the
+                # node's relay forwards downstream between the node's own requests
+                for _ in range(op[2]):
+                    net.call("m", lambda node: node.send(i, 1, b"dn"), 20000)
+                    net.settle(300)
+                net.drain_queues()
+                continue
+            elif k == "mghost":
+                # the master writes n user messages to an address nobody holds below node i's parent: the parent's radio
+                # transmits (and gives up) n times without the master or node i receiving anything
+                par = netaddr.parent(addr_of[i]) if addr_of[i] != 0o4444 else 0
+                if par:
+                    ghost = [par | (d << (3 * netaddr.level(par))) for d in (5, 4, 3) if (par | (d << (3 * netaddr.level(par)))) not in table.values()][0]
+                    for _ in range(op[2]):
+                        net.call("m", lambda node: node.write(ghost, 1, b"gh"), 20000)
+                        net.settle(300)
                 continue
             elif k == "kill":
                 # power loss: the node stops running and its radio goes silent
@@ -247,6 +265,7 @@ def run_case(case):
             continue
         if lossy:
             continue
+        res.label("judged-" + k)  # the share of scripted calls whose result was actually compared
         r = box.get("result")
         table, my = e["table"], e["addr"]
         if "table_after_lookup" in e and e["table_after_lookup"] != table:
@@ -419,9 +438,35 @@ def _release_after_send():
                    "script": [["release", who, (who + 1) % 3, ln], ["lookup_addr", (who + 1) % 3, ids[who]]], "concurrent": False, "loss": "D", "timeout": 7.5}
 
 
+def _repeated_lookup(reps):
+    """six nodes join one after the other; the node behind a relay (and, as a control, a level-1 node) asks the SAME
+    question several times with 0..4 downstream frames through the relay in between - the relay's 2-bit packet ID
+    comes round to the value it had for the previous, otherwise identical, request"""
+    ids = [11, 22, 33, 44, 55, 66]
+    nodes = [{"id": i, "kind": "mesh", "offset": 400 * n, "mcu": {"spi": 50, "jit": 0, "seed": n, "poll": 100}} for n, i in enumerate(ids)]
+    for who in (5, 0):
+        for kind, arg in (("lookup_addr", 22), ("lookup_id", "of")):
+            for k in range(0, 5):
+                for between in ("msend", "mghost"):
+                    if between == "mghost" and (k == 0 or who != 5):
+                        continue
+                    script = []
+                    for _ in range(reps):
+                        script.append([kind, who, arg] + ([1] if arg == "of" else []))
+                        if k:
+                            script.append([between, 5, k])
+                    yield {"nodes": nodes, "master_mcu": {"spi": 50, "jit": 0, "seed": 7, "poll": 100}, "script": script,
+                           "concurrent": False, "loss": "D", "timeout": 7.5}
+                continue
+                yield {"nodes": nodes, "master_mcu": {"spi": 50, "jit": 0, "seed": 7, "poll": 100}, "script": script,
+                       "concurrent": False, "loss": "D", "timeout": 7.5}
+
+
 def parts(tier):
     if tier == "quick":
         return [Part("relay-child-stagger-sweep", "enum", _pair_sweep(200), exhaustive=True),
+                Part("repeated-identical-lookups", "enum", lambda: _repeated_lookup(4), exhaustive=True),
                 Part("release-after-send", "enum", _release_after_send, exhaustive=True), Part("generated", "gen", lambda: _strategy(8), n=96)]
     return [Part("relay-child-stagger-sweep", "enum", _pair_sweep(25), exhaustive=True),
+            Part("repeated-identical-lookups", "enum", lambda: _repeated_lookup(8), exhaustive=True),
             Part("release-after-send", "enum", _release_after_send, exhaustive=True), Part("generated", "gen", lambda: _strategy(12), n=3000)]
